@@ -126,16 +126,17 @@ theorem cphase_partial (e0 : ℕ) (rest : List ℕ) (henc : enc = e0 :: rest) (k
     · cases hb : bits enc[k + 1] <;> simp [hz] <;> field_simp <;> ring
     · simp [hz]
 
+theorem cphaseCircuit_isDiag (proj : List Int) (e0 : ℕ) : ∀ g ∈ cphaseCircuit θ proj enc e0, g.IsDiag := by
+  intro g hg
+  simp only [cphaseCircuit, List.mem_append, List.mem_singleton, List.mem_map] at hg
+  rcases hg with (rfl | ⟨i, _, rfl⟩) | rfl <;> simp [GateDesc.IsDiag, cphaseStep]
+
 /-- **c-phase construction on basis states**: no basis state moves; the all-zero state of the encoding qubits
 collects the phase angle `θ`, every other one `-θ` -/
 theorem cphaseCircuit_act (e0 : ℕ) (rest : List ℕ) (henc : enc = e0 :: rest) :
     circuitAct (cphaseCircuit θ (List.replicate enc.length 0) enc e0) bits
       = (bits, if AllZero bits enc then θ else -θ) := by
-  have hdiag : ∀ g ∈ cphaseCircuit θ (List.replicate enc.length 0) enc e0, g.IsDiag := by
-    intro g hg
-    simp only [cphaseCircuit, List.mem_append, List.mem_singleton, List.mem_map] at hg
-    rcases hg with (rfl | ⟨i, _, rfl⟩) | rfl <;> simp [GateDesc.IsDiag, cphaseStep]
-  rw [circuitAct_diag _ hdiag]
+  rw [circuitAct_diag _ (cphaseCircuit_isDiag θ enc _ e0)]
   congr 1
   have hlen : 0 < enc.length := by rw [henc]; simp
   have hp2 : (2 : ℝ) ^ (enc.length - 1) ≠ 0 := by positivity
